@@ -44,6 +44,7 @@ COMPONENTS_REAL = [
     "dask graph construction and optimisation; independent readers: rasterio/GDAL and tifffile",
 ]
 COMPONENTS_STUB = ["dask scheduler (DaskSim)", "S3 service (FakeS3, multipart minimum scaled down together with S3Limits.min_write_sz)", "distributed get_client/Variable/Lock (fakes)", "uuid4 in odc.geo._dask (seeded)"]
+HAZARD_PROBES = ['levels_differ_from_reference_rule', 'pad_cells_not_fill', 'parts_left_in_destination_dir']
 ASSUMPTIONS = [
     "codec domain = (dtype, compression, predictor) triples for which tifffile's own encoder output is decoded identically by GDAL in a start-up probe; excluded triples are listed in coverage.codec_domain",
     "compression='none' is outside the domain (the writer cannot express fixed-size uncompressed tiles)",
